@@ -88,6 +88,11 @@ def gen_tokens(rng, regime):
 def gen(rng, tier, idx):
     scn = workloads.session_scenario(rng, purpose="exec", allow_spend=False)
     scn["observe"] = True
+    if rng.chance(30) and len(scn["script"]) // 2 <= 3000 and not any(o.startswith("--pretend") for o in scn["opts"]):
+        # the same script under the segwit v0 / tapscript rules: executed as the witness script / tap leaf of a
+        # signature-free spend built by the harness (both for the session and for the spliced reference)
+        scn["wrap"] = rng.choice(["p2wsh", "tapscript", "tapscript"])
+        scn["wrap_depth"] = rng.range(0, 3)
     scn["regime"] = rng.weighted([(60, "clean"), (25, "fault"), (15, "noise")])
     scn["tokens"] = gen_tokens(rng, "fault" if (scn["regime"] == "fault" or (scn["regime"] == "noise" and rng.chance(60))) else "clean")
     scn["k"] = rng.below(1000)
@@ -128,6 +133,20 @@ def shrink_extra(scn, still, budget):
     return workloads.shrink_script(scn, still, budget)
 
 
+def materialise(scn, script_bytes):
+    """-> (scenario that runs these script bytes, number of steps before the script's first operation)"""
+    s2 = dict(scn)
+    if not scn.get("wrap"):
+        s2["script"] = script_bytes.hex()
+        return s2, 0
+    from . import spend
+    sp = spend.make_nosig(scn["wrap"], script_bytes, [bytes.fromhex(x) for x in scn.get("stack", [])], scn.get("wrap_depth", 1))
+    s2["script"] = None
+    s2["stack"] = []
+    s2["spend"] = {"tx": sp["tx"], "txin": sp["txin"]}
+    return s2, sp["commit_steps"]
+
+
 def sub(probe):
     if not probe or probe.get("env") != "ok":
         return None
@@ -164,9 +183,12 @@ def evaluate_noise(ctx, scn):
     k = scn["k"] % (nops + 1)
     toks = scn["tokens"]
     runs = []
+    tscn, base = materialise(scn, raw)
+    k0 = k
+    k = k + base
     for noise in (scn["noise"], scn["noise_equiv"]):
-        items = [["sync"]] + [["step"]] * k + [list(x) for x in noise] + [["sync"]] + [["exec"] + [t[0] for t in toks]] + [["step"]] * (nops - k + 2)
-        w = session.build_world(scn, sched=items)
+        items = [["sync"]] + [["step"]] * k + [list(x) for x in noise] + [["sync"]] + [["exec"] + [t[0] for t in toks]] + [["step"]] * (nops - k0 + 2)
+        w = session.build_world(tscn, sched=items)
         r = ctx.run(w)
         ev.hashes.append(r.hash())
         ev.counters["term:" + r.classify()[0]] += 1
@@ -219,15 +241,19 @@ def evaluate_splice(ctx, scn):
     spliced = raw[:cut] + b"".join(bytes.fromhex(t[1]) for t in toks) + raw[cut:]
     if len(spliced) > 10000:
         return ev
-    rscn = dict(scn)
-    rscn["script"] = spliced.hex()
-    ref = refmod.reference(ctx, rscn, ev, max_steps=nops + n + 2)
+    rscn, base = materialise(scn, spliced)
+    tscn, _ = materialise(scn, raw)
+    ref = refmod.reference(ctx, rscn, ev, max_steps=base + nops + n + 2)
+    if scn.get("wrap"):
+        ev.counters["probe:exec_in_%s_session" % scn["wrap"]] += 1
     ev.counters["term:" + ref.run.classify()[0]] += 1
     if not ref.started:
         ev.counters["ref_not_started"] += 1
         return ev
-    items = [["sync"]] + [["step"]] * k + ([["exec"] + [t[0] for t in toks]]) + [["step"]] * (nops - k + 2)
-    w = session.build_world(scn, sched=items)
+    kk = k                  # position inside the script (for the messages)
+    k = k + base            # position in the session: the commitment steps come first
+    items = [["sync"]] + [["step"]] * k + ([["exec"] + [t[0] for t in toks]]) + [["step"]] * (nops - kk + 2)
+    w = session.build_world(tscn, sched=items)
     run = ctx.run(w)
     ev.hashes.append(run.hash())
     ev.counters["term:" + run.classify()[0]] += 1
@@ -295,7 +321,7 @@ def evaluate_splice(ctx, scn):
                 if ref.fail and k < ref.fail[0] < k + n:
                     j = ref.fail[0] - k
                     items_t = [["sync"]] + [["step"]] * k + [["exec"] + [t[0] for t in toks[:j]]]
-                    wt = session.build_world(scn, sched=items_t)
+                    wt = session.build_world(tscn, sched=items_t)
                     rt = ctx.run(wt)
                     ev.hashes.append(rt.hash())
                     ct = session.parse_session(wt, rt, items_t)
